@@ -3,7 +3,7 @@
     sumbool, sumor map to their OCaml counterparts; N, Z, positive, nat,
     string and ascii stay the extracted Coq datatypes. *)
 From Coq Require Import Extraction ExtrOcamlBasic.
-From MP4 Require Import Types IsoTables Track Writer SampleTable IsoFile.
+From MP4 Require Import Types IsoTables Track Writer SampleTable IsoFile Fragment Reader.
 From MP4 Require Tables.
 
 Extraction Language OCaml.
@@ -28,5 +28,13 @@ Extraction "model.ml"
   (* Writer.v *)
   run_mux mw_write_start run_ops mw_write_end
   (* IsoFile.v *)
-  iso_file iso_check_file.
+  iso_file iso_check_file
+  (* Fragment.v *)
+  frag_consistent frag_expand
+  (* Reader.v *)
+  open_fuel open_fragment_fuel track_view rd_get_size rd_major_brand rd_minor_version rd_compatible_brands rd_duration_ms
+  rd_timescale rd_is_fragmented rd_sample_count rd_sample_offset rd_read_sample
+  mt_track_id mt_track_type mt_media_type mt_box_type mt_width mt_height mt_language mt_timescale mt_duration_us mt_sample_count
+  mt_bitrate mt_video_profile mt_sequence_parameter_set mt_picture_parameter_set mt_audio_profile mt_sample_freq_index mt_channel_config
+  mt_dec_specific rd_metadata md_title md_year md_poster md_summary show_moov show_ftyp show_moof show_emsg.
 Cd "../../coq".
